@@ -196,8 +196,12 @@ GroupByK(by) == GroupByO(by, "")
 Hist(var) == [t |-> "Hist", var |-> var, edges |-> <<0, 1, 2, 3>>,
               init |-> CASE var = "plain" -> <<0, 0, 0>> [] var = "bins" -> <<1, 0, 2>>
                          [] var = "make" -> <<5, 5, 5>> [] var = "iv" -> <<7, 7, 7>>]
-Hist2 == [t |-> "Hist2", edges |-> <<0, 1, 2, 3>>, edges2 |-> <<0, 2, 4>>,
-          init2 |-> <<<<0, 0>>, <<0, 0>>, <<0, 0>>>>]
+\* var as for the 1-dimensional kind: "plain" Histogram([edges, edges2]), "bins" explicit nested initial bins,
+\* "make" make_bins returning new nested bins (reset must rebuild every row, not only the outer list)
+Hist2(var) == [t |-> "Hist2", var |-> var, edges |-> <<0, 1, 2, 3>>, edges2 |-> <<0, 2, 4>>,
+               init2 |-> CASE var = "plain" -> <<<<0, 0>>, <<0, 0>>, <<0, 0>>>>
+                           [] var = "bins" -> <<<<1, 0>>, <<0, 2>>, <<3, 0>>>>
+                           [] var = "make" -> <<<<5, 5>>, <<5, 5>>, <<5, 5>>>>]
 GraphI(scale, sort, ipts, ictx) == [t |-> "Graph", scale |-> scale, sort |-> sort, ipts |-> ipts, ictx |-> ictx]
 GraphK(scale, sort) == GraphI(scale, sort, <<>>, E)
 AllKinds == {Count0, Count2, Sum0, Sum5, DSumK,
@@ -218,7 +222,7 @@ AllKinds == {Count0, Count2, Sum0, Sum5, DSumK,
              VecOf(<<Store(FALSE), Sum0>>, "list", "add", "num2"),
              GroupByO("a", "dep"), StoreO(FALSE, "odd"), CountO("count", 0, "odd"),
              Store(TRUE), Store(FALSE), GroupByK("all"), GroupByK("a"), GroupByK("ac"), CountDot, CountDot2,
-             Hist("plain"), Hist("bins"), Hist("make"), Hist("iv"), Hist2,
+             Hist("plain"), Hist("bins"), Hist("make"), Hist("iv"), Hist2("plain"), Hist2("bins"), Hist2("make"),
              GraphK(None, TRUE), GraphK(None, FALSE), GraphK(2, TRUE)}
 
 \* thorough tier only
